@@ -60,6 +60,16 @@ tmpl("drop_duplicates", lambda x, c: x[["a", "d"]].drop_duplicates(**kw(c, "spli
 tmpl("drop_duplicates_subset", lambda x, c: x.drop_duplicates(subset=["a"], **kw(c, "split_every", "split_out", "shuffle_method"))[["a"]], lambda p: p.drop_duplicates(subset=["a"])[["a"]], labelled=False)
 tmpl("value_counts", lambda x, c: x["a"].value_counts(**kw(c, "split_every", "split_out")), lambda p: p["a"].value_counts())
 tmpl("value_counts_str", lambda x, c: x["c"].value_counts(**kw(c, "split_every", "split_out")), lambda p: p["c"].value_counts())
+tmpl("value_counts_norm", lambda x, c: x["b"].value_counts(normalize=True, **kw(c, "split_every", "split_out")), lambda p: p["b"].value_counts(normalize=True))
+tmpl("value_counts_norm_keepna", lambda x, c: x["c"].value_counts(normalize=True, dropna=False, **kw(c, "split_every", "split_out")), lambda p: p["c"].value_counts(normalize=True, dropna=False))
+tmpl("value_counts_asc", lambda x, c: x["b"].value_counts(sort=True, ascending=True, **kw(c, "split_every", "split_out")), lambda p: p["b"].value_counts(sort=True, ascending=True))
+tmpl("nunique_keepna", lambda x, c: x["b"].nunique(dropna=False, **kw(c, "split_every")), lambda p: p["b"].nunique(dropna=False))
+tmpl("drop_duplicates_last", lambda x, c: x.drop_duplicates(subset=["a"], keep="last", **kw(c, "split_every", "split_out", "shuffle_method"))[["a"]], lambda p: p.drop_duplicates(subset=["a"], keep="last")[["a"]], labelled=False)
+tmpl("gb_sum_dropna_false", lambda x, c: x.groupby("c", dropna=False)["u"].sum(**kw(c, "split_every", "split_out")), lambda p: p.groupby("c", dropna=False)["u"].sum())
+tmpl("gb_mean_observed", lambda x, c: x.groupby("a")["b"].mean(**kw(c, "split_every", "split_out")), lambda p: p.groupby("a")["b"].mean())
+# NOTE: order-sensitive aggregations (first/last) are not value-compared under split_out > 1: a shuffle does not
+# define the row order inside a group (documented "does not preserve a meaningful index/partitioning scheme")
+tmpl("gb_first_last", lambda x, c: x.groupby("a").agg({"u": "first", "b": "last"}, **kw(c, "split_every", "split_out")), lambda p: p.groupby("a").agg({"u": "first", "b": "last"}))
 tmpl("sort", lambda x, c: x.sort_values("u", **kw(c, "npartitions", "upsample", "shuffle_method")), lambda p: p.sort_values("u"), ordered=True)
 tmpl("sort_desc", lambda x, c: x.sort_values("u", ascending=False, **kw(c, "npartitions", "upsample", "shuffle_method")), lambda p: p.sort_values("u", ascending=False), ordered=True)
 tmpl("sort_dupkey", lambda x, c: x.sort_values("a", **kw(c, "npartitions", "upsample", "shuffle_method"))[["a"]], lambda p: p.sort_values("a")[["a"]], ordered=True, labelled=False)
@@ -184,11 +194,11 @@ def run(ctx):
     quick = ctx.tier == "quick"
     cases = []
     ns = [1, 2, 3, 5, 9, 12] if quick else list(range(1, 13))
-    for t in ("red_sum", "red_mean_s", "red_var", "red_count_filter", "red_nunique", "red_max_str", "nlargest", "gb_median"):
+    for t in ("red_sum", "red_mean_s", "red_var", "red_count_filter", "red_nunique", "nunique_keepna", "red_max_str", "nlargest", "gb_median"):
         for n in (range(1, 13)):
             for se in (U, False, 2, 3, 4, 8):
                 cases.append({"t": t, "n": n, "split_every": se, "fuse": n % 2 == 0})
-    for t in ("gb_sum", "gb_agg", "gb_multi", "gb_multi_agg", "gb_var", "gb_nunique", "gb_size_str"):
+    for t in ("gb_sum", "gb_agg", "gb_multi", "gb_multi_agg", "gb_var", "gb_nunique", "gb_size_str", "gb_sum_dropna_false", "gb_mean_observed"):
         for n in ns:
             for se in (U, False, 2, 3, 8):
                 for so in (U, 1, 2, 3, True):
@@ -196,7 +206,7 @@ def run(ctx):
                         if quick and m == "disk" and so in (U, 1):
                             continue
                         cases.append({"t": t, "n": n, "split_every": se, "split_out": so, "shuffle_method": m})
-    for t in ("unique", "drop_duplicates", "drop_duplicates_subset", "value_counts", "value_counts_str"):
+    for t in ("unique", "drop_duplicates", "drop_duplicates_subset", "drop_duplicates_last", "value_counts", "value_counts_str", "value_counts_norm", "value_counts_norm_keepna", "value_counts_asc"):
         for n in ns:
             for se in (U, 2, 8):
                 for so in (U, 1, 2, 3, True):
